@@ -3,6 +3,6 @@ CONSTANTS
   MaxDev = 1
   NamesSet = {"utf8", "legacy"}
   CoreOnly = FALSE
-  Gaps = {"F9a", "F9b", "F9c", "F9d", "F9e"}
+  Gaps = {}
 INVARIANTS EmitCase
 CHECK_DEADLOCK FALSE
